@@ -211,11 +211,31 @@ func (f *QuadraticFieldExtensionImpl[BFP, A, BF]) Sqrt(v *QuadraticFieldExtensio
 	ok4 := BFP(&com).Inv(&com)
 	BFP(&com).Mul(&com, &v.U1)
 
-	BFP(&f.U0).Select(okp&ok4, &f.U0, &pos)
-	BFP(&f.U0).Select(okn&ok4, &f.U0, &neg)
-	BFP(&f.U1).Select((okp|okn)&ok4, &f.U1, &com)
+	// When v lies in the base field (U1 == 0) the formula above degenerates: one of
+	// pos/neg is zero, so com can be zero and its inversion fails although a root
+	// exists. There sqrt(v) is (sqrt(U0), 0) if U0 is a square in the base field and
+	// (0, sqrt(U0/beta)) otherwise, where beta is the quadratic non-residue.
+	var base0, base1, betaInv BF
+	BFP(&betaInv).SetOne()
+	arith.MulByQuadraticNonResidue(&betaInv, &betaInv)
+	okBeta := BFP(&betaInv).Inv(&betaInv)
+	BFP(&base1).Mul(&v.U0, &betaInv)
+	okBase0 := BFP(&base0).Sqrt(&v.U0)
+	okBase1 := BFP(&base1).Sqrt(&base1) & okBeta & (okBase0 ^ 1)
+	inBase := BFP(&v.U1).IsZero()
+	okGeneral := (okp | okn) & ok4 & (inBase ^ 1)
 
-	return (okp | okn) & ok4
+	var zero BF
+	BFP(&zero).SetZero()
+	BFP(&f.U0).Select(okp&ok4&(inBase^1), &f.U0, &pos)
+	BFP(&f.U0).Select(okn&ok4&(inBase^1), &f.U0, &neg)
+	BFP(&f.U1).Select(okGeneral, &f.U1, &com)
+	BFP(&f.U0).Select(inBase&okBase0, &f.U0, &base0)
+	BFP(&f.U1).Select(inBase&okBase0, &f.U1, &zero)
+	BFP(&f.U0).Select(inBase&okBase1, &f.U0, &zero)
+	BFP(&f.U1).Select(inBase&okBase1, &f.U1, &base1)
+
+	return okGeneral | (inBase & (okBase0 | okBase1))
 }
 
 func (f *QuadraticFieldExtensionImpl[BFP, A, BF]) IsNonZero() ct.Bool {
